@@ -15,6 +15,10 @@ COMMANDS = ["bash", "sh", "zsh", "dash", "ksh", "fish"]
 RUNS_SCRIPTS = True
 
 
+# Long options whose value is the next word
+_OPTIONS_WITH_VALUE = frozenset({"--rcfile", "--init-file"})
+
+
 def classify(ctx: HandlerContext) -> Classification:
     """Classify shell command."""
     tokens = ctx.tokens
@@ -22,12 +26,24 @@ def classify(ctx: HandlerContext) -> Classification:
     if len(tokens) < 2:
         return Classification("ask", description=f"{base} interactive")
 
-    # Find -c flag (standalone or combined like -lc, -cl, -xcl, etc.)
+    # Find -c flag (standalone or combined like -lc, -cl, -xcl, etc.) among the shell's own
+    # options: they end at the first word that is not an option ("bash x.sh -c ls" runs x.sh)
     c_idx = None
-    for i, tok in enumerate(tokens):
+    i = 1
+    while i < len(tokens):
+        tok = tokens[i]
         if tok.startswith("-") and not tok.startswith("--") and "c" in tok:
             c_idx = i
             break
+        if tok in _OPTIONS_WITH_VALUE or (
+            len(tok) > 1 and tok[0] in "-+" and tok[1] != "-" and tok[-1] in "oO"
+        ):
+            # -o errexit, +O extglob, -eo pipefail, --rcfile FILE: the next word is the value
+            i += 2
+            continue
+        if tok == "--" or not tok.startswith(("-", "+")):
+            break
+        i += 1
 
     if c_idx is None:
         return Classification("ask", description=f"{base} interactive")
